@@ -25,6 +25,9 @@ def literal_value(value: Any) -> str:
         return str(value) if math.isfinite(value) else f'float("{value}")'
 
     if isinstance(value, QName):
-        return f"QName({json.dumps(value.text, ensure_ascii=False)})"
+        text = json.dumps(value.text, ensure_ascii=False)
+        # a lone surrogate cannot be written to a source file: escape it
+        text = text.encode("utf-8", "backslashreplace").decode("utf-8")
+        return f"QName({text})"
 
     return repr(value)
